@@ -1,5 +1,31 @@
-// stub: check for C10 not built yet
+use fsim::gen::{self, Focus, Prop};
+use vcore::Level;
+
+const RULE: &str = "a history is a configuration (roll period, max files 1-5, size limit tiny..huge, reuse on/off, separator \\n | \\r\\n | \\0, prefix/extension) plus steps {batch of 1-5 events of 0-48 bytes (optionally after a sender-side overflow clear), clock step (forwards, zero, backwards), restart} plus a fault plan of 0-3 faults {error, partial write then error, short write, crash keeping n bytes} keyed by filesystem-call index, plus choices for post-crash images; the REAL emit_file worker (hook H2) runs over a model filesystem and is retried like the channel retries it (remainder re-submitted up to 10 times, 700 ms apart). single-fault-exhaustive: for sampled fault-free histories EVERY fault kind (9 variants) is injected at EVERY filesystem call index. Oracle: (1) when a batch is reported written every one of its events is a complete byte-identical record in synced content, also in every post-crash image unless retention deleted its file; (2) every separator-delimited record of every file and post-crash image is a complete event, empty, or a truncated prefix of ONE event (possibly with a cut-short separator), and truncated records only exist when a fault/crash was injected. Non-trivial = at least one injected fault or crash actually hit a filesystem call.";
+
 fn main() {
-    eprintln!("C10: check not built yet");
-    std::process::exit(2);
+    vcore::run(
+        "C10",
+        Level::FaultEnumeration,
+        RULE,
+        &[
+            "filesystem model: written bytes are visible at once and durable up to the length at the last successful sync_all; a crash keeps each file's synced prefix plus a generated prefix of its unsynced suffix (the crash model the property states); directory-entry durability (sync_parent) is recorded but not judged",
+            "the worker is driven directly through hook H2 (emit_file::verif::Worker::on_batch) with the retry policy of emit_batcher re-implemented by the harness; the end-to-end path through the real channel is covered by C07",
+            "batches that fail in flush/sync are not acknowledged and not retried (documented); nothing is claimed about them",
+            "event bodies never contain separator bytes (emit's writers guarantee this for the default JSON writer)",
+            "non-repeating pseudo-random file ids; a virtual clock under harness control",
+        ],
+        |s| {
+            s.require("fault-on-write", 3000);
+            s.require("fault-on-sync-or-flush", 2000);
+            s.require("crash", 3000);
+            s.require("reuse-after-crash", 500);
+            s.require("batch-retried", 3000);
+            s.require("two-byte-separator", 5000);
+            s.require("truncated-record-present", 3000);
+            s.gen("histories", s.n(400_000, 12_000_000), || gen::hist(Focus::Faults), |h, cx| gen::check(h, Prop::C10, cx));
+            let bases = s.sample("single-fault-bases", gen::hist(Focus::Faults), s.n(400, 12_000) as usize);
+            s.enumerate("single-fault-exhaustive", bases.into_iter().flat_map(gen::single_fault_placements), |h, cx| gen::check(h, Prop::C10, cx));
+        },
+    )
 }
